@@ -82,6 +82,8 @@ def finish_run(simk, R, K, root, result):
     result['thread_exceptions'] = [t for t in K.trace][:5]
     if result.get('violations'):
         result['decisions'] = K.decisions
-        result['events'] = R.REC.events[-600:]
+        evs = [e for e in R.REC.events if e[2] not in ('sched-start', 'kstart', 'kend', 'postMortemCheck-end',
+                                                        'finishedCheck-end')]
+        result['events'] = evs if len(evs) <= 700 else evs[:350] + [[0, 0, '...', None, None]] + evs[-350:]
     R.cleanup_root(root)
     return result
